@@ -7,6 +7,8 @@ from .cond import norm_cond, Lit
 
 import re as _re
 _MENT = {}
+PURE_CALLS = ("strcmp", "strncmp", "strcasecmp", "strncasecmp", "strlen", "memcmp", "strchr", "strrchr", "strstr", "strpbrk", "strspn", "strcspn",
+              "isspace", "isdigit", "isalpha", "isalnum", "tolower", "toupper")
 
 
 
@@ -163,7 +165,7 @@ class CFG:
             return None
         rhs, st = d[v][0]
         r = rhs.strip()
-        if any(x.k == "CallExpr" and x.j.get("callee") not in ("strcmp", "strncmp", "strcasecmp", "strlen", "memcmp") for x in r.walk()):
+        if any(x.k == "CallExpr" and x.j.get("callee") not in PURE_CALLS for x in r.walk()):
             return None
         if any(x.k in ("CompoundAssignOperator",) or (x.k == "UnaryOperator" and x.j.get("op") in ("++", "--")) or
                (x.k == "BinaryOperator" and x.j.get("op") == "=") for x in r.walk()):
@@ -223,7 +225,7 @@ class CFG:
         while inner.k == "UnaryOperator" and inner.j.get("op") == "!":
             inner = inner.children[0].strip()
         atomic = inner.k == "BinaryOperator" and inner.j.get("op") in ("==", "!=", "<", ">", "<=", ">=")
-        if not atomic or any(x.k == "CallExpr" and x.j.get("callee") not in ("strcmp", "strncmp", "strcasecmp", "strlen", "memcmp") for x in r.walk()):
+        if not atomic or any(x.k == "CallExpr" and x.j.get("callee") not in PURE_CALLS for x in r.walk()):
             return lit
         db = self.block_of(st)
         if db is None or db == bid:
@@ -517,7 +519,7 @@ class CFG:
                         return conjuncts(e2.children[0]) + conjuncts(e2.children[1])
                     return [e2]
                 for c in conjuncts(ds[0]):
-                    if any(x.k == "CallExpr" and x.j.get("callee") not in ("strcmp", "strncmp", "strlen", "strcasecmp", "memcmp") for x in c.walk()):
+                    if any(x.k == "CallExpr" and x.j.get("callee") not in PURE_CALLS for x in c.walk()):
                         continue
                     l2 = norm_cond(c)
                     if l2.key() not in seen:
